@@ -641,6 +641,10 @@ def _numeric(t):
         name = str(t[1]).split("::")[-1]
         if name == "epsilon" and not t[2]:
             return Fraction(1, 2 ** 52)
+        if name == "sqrt" and len(t[2]) == 1:
+            a = _numeric(t[2][0])
+            if a is not None and a >= 0:
+                return Fraction(float(a) ** 0.5)
         if name == "pow" and len(t[2]) == 2:
             a, b = _numeric(t[2][0]), _numeric(t[2][1])
             if a is not None and b is not None and a > 0:
